@@ -25,7 +25,7 @@ for l in open(os.path.join(V, "properties.jsonl")):
         na.append({"property_id": pid, "reason": "check not built yet at this commit (planned: DESIGN.md section 2 " + pid + "); the technique applies"})
 m = {
     "version": 1,
-    "setup_cmd": "cd /verif/harness && GOFLAGS=-mod=mod GOPROXY=off go vet ./ev >/dev/null 2>&1; cd /verif && mkdir -p .build && (cd harness && GOFLAGS=-mod=mod GOPROXY=off go test -tags verif -c -o /verif/.build/props.test ./props)",
+    "setup_cmd": "cd /verif/harness && GOFLAGS=-mod=mod GOPROXY=off go vet ./ev >/dev/null 2>&1; cd /verif && mkdir -p .build && (cd harness && GOFLAGS=-mod=mod GOPROXY=off go test -tags verif -c -o /verif/.build/props.test ./props && GOFLAGS=-mod=mod GOPROXY=off go test -tags verif -race -c -o /verif/.build/props.race.test ./props)",
     "hooks": {
         "guard": "verif",
         "enable": "the harness test binary is built with `go test -tags verif` (see ./check build()); /verif/harness/go.mod replaces github.com/zitadel/saml with /repo, so every build compiles /repo's current tree including pkg/provider/verif_hooks.go (//go:build verif), which only adds Provider.VerifTemplates() used by C17",
